@@ -5,7 +5,8 @@ program demonstrating the violation. Prints one JSON line per program; exit 0 al
 import json, os, subprocess, sys
 from pathlib import Path
 V = Path(__file__).resolve().parent.parent
-WORK = V / ".build" / "c17twins"
+WORK = Path(os.environ.get("VERIF_BUILD_DIR", V / ".build")) / "c17twins"
+REPO = os.environ.get("VERIF_REPO_DIR", "/repo")
 HDR = "#![allow(dead_code)]\nuse parity_scale_codec::{Encode, Decode};\n"
 # (name, source, should_compile)
 TWINS = [
@@ -34,7 +35,7 @@ TWINS = [
 def main():
     (WORK / "src" / "bin").mkdir(parents=True, exist_ok=True)
     (WORK / "Cargo.toml").write_text('[package]\nname = "c17twins"\nversion = "0.0.0"\nedition = "2021"\n[dependencies]\n'
-                                     'parity-scale-codec = { path = "/repo", default-features = false, features = ["derive"] }\n[workspace]\n')
+                                     'parity-scale-codec = { path = "__REPO__", default-features = false, features = ["derive"] }\n[workspace]\n'.replace("__REPO__", REPO))
     (WORK / "src" / "lib.rs").write_text("")
     for old in (WORK / "src" / "bin").glob("*.rs"):
         old.unlink()
